@@ -562,12 +562,16 @@ func (t *genTable[Obj]) Changes(txn WriteTxn) (ChangeIterator[Obj], error) {
 	}
 
 	itxn := txn.unwrap()
-	name := fmt.Sprintf("changes-%p", iter)
 	iter.dt = &deleteTracker[Obj]{
-		db:          itxn.db,
-		trackerName: name,
-		table:       t,
+		db:    itxn.db,
+		table: t,
 	}
+	// Name the tracker after the delete tracker and not after the iterator:
+	// the iterator's memory may be reused for a new iterator before the cleanup
+	// of the old one has unregistered its tracker, whereas the tracker stays
+	// referenced (by the table and by the cleanup) until it is unregistered.
+	name := fmt.Sprintf("changes-%p", iter.dt)
+	iter.dt.trackerName = name
 
 	iter.dt.setRevision(iter.deleteRevision)
 	err := itxn.addDeleteTracker(t, name, iter.dt)
